@@ -677,6 +677,22 @@ func init() {
 				if !ok {
 					continue
 				}
+				// the pacing state is the checker's own; package-level counters kept for diagnosis are not part of it
+				if len(ci.Common().Args) > 0 {
+					root := ci.Common().Args[0]
+					for i := 0; i < 4; i++ {
+						if fa, isFa := root.(*ssa.FieldAddr); isFa {
+							root = fa.X
+						} else if ia, isIa := root.(*ssa.IndexAddr); isIa {
+							root = ia.X
+						} else {
+							break
+						}
+					}
+					if _, isGlobal := root.(*ssa.Global); isGlobal {
+						continue
+					}
+				}
 				na++
 				fs := canonFacts(ci.Block())
 				okT := fs["0 < {float64}"]
@@ -725,7 +741,7 @@ func init() {
 				// matching rollback
 				var rb *ssa.Call
 				for _, m := range minus {
-					if m.Call.Args[1].(*ssa.UnOp).X == p.Call.Args[1] && accessPath(m.Call.Args[0]) == accessPath(p.Call.Args[0]) {
+					if sameValue(m.Call.Args[1].(*ssa.UnOp).X, p.Call.Args[1]) && accessPath(m.Call.Args[0]) == accessPath(p.Call.Args[0]) {
 						rb = m
 					}
 				}
